@@ -30,6 +30,8 @@ RULE = ("cases: histories of add_sample (indices as list/tuple/set/ndarray, repe
         "designs, dyadic values), update, clear_data, flag toggles (as Auer/PaVeBa do), predict; shapes: "
         "single batch, interleaved rounds, clears (incl. empty clears), stale (update omitted), flags, "
         "rejected adds (index >= count, length mismatch), power-of-two counts, long PaVeBa-like runs, "
+        "noise_var grid {0.0, 0, np 0.0, 1e-12, 0.25, 1, 4} (every 3rd case), large common offsets 2^20..2^30 / "
+        "1e8 per (design, objective) with small dyadic spread (every 4th case), "
         "re-batched/permuted pairs of histories, quirks (negative indices, empty adds, multi-sample rows); "
         "non-trivial = some predicted design holds >= 2 samples that arrived in >= 2 different add calls, "
         "or an add is rejected between accepted ones; distinct by the full op list")
@@ -324,6 +326,29 @@ class _Probe:
 GARBAGE = 977.125
 
 
+EPS = Fraction(1, 2 ** 52)
+
+
+def _tol_mean(ref):
+    """np.mean: exact sum (dyadic values), one rounding in the division"""
+    return TOL + 4 * EPS * abs(ref)
+
+
+def _tol_var(ref, mean_ref):
+    """np.var (two-pass): the mean is off by at most eps*|mean|; the deviations are then exact, so the result
+    is off by that error squared plus ordinary relative rounding.  (A one-pass E[y^2]-E[y]^2 is off by
+    ~eps*mean^2, far outside this band when the samples share a large offset.)"""
+    return TOL * max(1, abs(ref)) + 4 * (EPS * abs(mean_ref)) ** 2
+
+
+def _within(x, ref, tol, exact=False):
+    try:
+        fx = core.frac(x)
+    except (ValueError, OverflowError):
+        return False
+    return fx == ref if exact else abs(fx - ref) <= tol
+
+
 def _execute(ctx, case, ops, tag=""):
     """One history with the aliasing dimension switched on: (a) every array handed to add_sample (the
     observation buffer — one preallocated array refilled for each call — and an index array / list) is
@@ -528,8 +553,8 @@ def _execute_raw(ctx, case, ops, tag, scrub, mutate):
                 if tm:
                     S = snap_m[d]
                     ref, _ = stat(S)
-                    sc = max([1.0] + [abs(v) for r in S for v in r])
-                    ok = all(_near(mu[pos, j], ref[j], sc, _is_pow2(len(S)) or len(S) == 0) for j in range(m))
+                    ok = all(_within(mu[pos, j], ref[j], _tol_mean(ref[j]), _is_pow2(len(S)) or len(S) == 0)
+                             for j in range(m))
                     what = ("zero mean for a design without samples" if not S else
                             "arithmetic mean of all samples added for the design (as of the last update)")
                     key = "mean-unsampled" if not S else "mean"
@@ -542,8 +567,7 @@ def _execute_raw(ctx, case, ops, tag, scrub, mutate):
                     # the literal property value ("all samples ever added", update or not) is never an (R)
                     # violation; the difference to the model (statistics as of the last update) is left to (F)
                     refl, _ = stat(held[d])
-                    scl = max([1.0] + [abs(v) for r in held[d] for v in r])
-                    if all(_near(mu[pos, j], refl[j], scl, False) for j in range(m)):
+                    if all(_within(mu[pos, j], refl[j], _tol_mean(refl[j])) for j in range(m)):
                         ok = True
                         ctx.count("mean_matches_live_not_last_update_info")
                 if not ok:
@@ -553,9 +577,9 @@ def _execute_raw(ctx, case, ops, tag, scrub, mutate):
                     return None
                 if tv:
                     S = snap_v[d]
-                    _, ref = stat(S)
-                    sc = max([1.0] + [v * v for r in S for v in r])
-                    ok = all(_near(cov[pos, a, b], ref[a][b], sc, _is_pow2(len(S)) or len(S) < 2)
+                    mref, ref = stat(S)
+                    ok = all(_within(cov[pos, a, b], ref[a][b], _tol_var(ref[a][b], mref[a]),
+                                     _is_pow2(len(S)) or len(S) < 2)
                              for a in range(m) for b in range(m))
                     what = ("noise_var * I for a design with fewer than two samples" if len(S) < 2 else
                             "diagonal matrix of per-objective population variances (as of the last update)")
@@ -565,9 +589,9 @@ def _execute_raw(ctx, case, ops, tag, scrub, mutate):
                     ok = all(core.frac(cov[pos, a, b]) == (1 if a == b else 0) for a in range(m) for b in range(m))
                     what, key = "identity covariance when variances are untracked", "var-untracked"
                 if not ok and tv and determined and S != held[d]:
-                    _, refl = stat(held[d])
-                    scl = max([1.0] + [v * v for r in held[d] for v in r])
-                    if all(_near(cov[pos, a, b], refl[a][b], scl, False) for a in range(m) for b in range(m)):
+                    mrefl, refl = stat(held[d])
+                    if all(_within(cov[pos, a, b], refl[a][b], _tol_var(refl[a][b], mrefl[a]))
+                           for a in range(m) for b in range(m)):
                         ok = True
                         ctx.count("var_matches_live_not_last_update_info")
                 if not ok:
@@ -609,9 +633,8 @@ def _execute_raw(ctx, case, ops, tag, scrub, mutate):
             good = mu.shape == (len(M), m) and cov.shape == (len(V), m, m)
             if good:
                 for pos in range(len(M)):
-                    sc = max([1.0] + [abs(float(x)) for x in M[pos]] + [abs(float(x)) for r in V[pos] for x in r])
-                    good = good and all(_near(mu[pos, j], M[pos][j], sc, False) for j in range(m))
-                    good = good and all(_near(cov[pos, a, b], V[pos][a][b], sc, False)
+                    good = good and all(_within(mu[pos, j], M[pos][j], _tol_mean(M[pos][j])) for j in range(m))
+                    good = good and all(_within(cov[pos, a, b], V[pos][a][b], _tol_var(V[pos][a][b], M[pos][a]))
                                         for a in range(m) for b in range(m))
             if not good:
                 if undetermined:
@@ -655,10 +678,16 @@ def run_case(ctx, case):
         (ia, ma, ca), (ib, mb, cb) = ra[0][-1], rb[0][-1]
         ok = ia == ib and ma.shape == mb.shape and ca.shape == cb.shape
         if ok:
-            sc = max([1.0] + [v * v for p_ in pairs for v in p_[1]])
-            diff = max(float(np.max(np.abs(ma - mb))) if ma.size else 0.0,
-                       float(np.max(np.abs(ca - cb))) if ca.size else 0.0)
-            ok = diff <= 1e-12 * sc
+            try:
+                for pos in range(ma.shape[0]):
+                    for a in range(ma.shape[1]):
+                        rb_ = core.frac(mb[pos, a])
+                        ok = ok and _within(ma[pos, a], rb_, 2 * _tol_mean(rb_))
+                        for b in range(ma.shape[1]):
+                            cb_ = core.frac(cb[pos, a, b])
+                            ok = ok and _within(ca[pos, a, b], cb_, 2 * _tol_var(cb_, rb_))
+            except (ValueError, OverflowError):
+                ok = False
         if not ok:
             ctx.violation("order-dependence", "two histories with the same per-design sample multisets "
                           "(different order / batching) predict differently", case)
